@@ -144,6 +144,7 @@ def _load_moment(name, y, groups):
 
 
 def run_job(job, deadline):
+    mc.set_group_order(job["id"])
     acc = JobAcc(job)
     if job["kind"] == "grid":
         _grid(acc, job, deadline)
@@ -293,6 +294,7 @@ def replay(cex):
     from fairlearn.reductions._grid_search._grid_generator import _GridGenerator
 
     job, mdl, ex = cex["job"], cex["model"], cex["extra"]
+    mc.set_group_order(job["id"])
     f = lambda k, d="0": float(F(mdl.get(k, d)))
     if job["kind"] == "grid":
         y, groups, name, gsz = job["y"], job["groups"], job["moment"], ex["grid_size"]
